@@ -7,7 +7,7 @@ pub struct P;
 fn all_paths_bytes(ty: u64, ops: &[Op]) -> Result<Vec<u8>, String> {
     let mut reference: Option<(String, Option<Vec<u8>>)> = None;
     for (sem, fe) in applicable_front_ends(ops, true, ty) {
-        let b = exec_build(sem, fe, ty, 10_000, 2, ops).bytes;
+        let b = exec_build(sem, fe, ty, drows(), dcols(), ops).bytes;
         match &reference {
             None => reference = Some((format!("{}/{}", sem, fe), b)),
             Some((name, r)) => {
@@ -48,11 +48,11 @@ impl Prop for P {
         let nrand = match tier { Tier::Quick => 200, Tier::Thorough => 3000, Tier::Wide => 800 };
         let sets = crate::c02::standard_keysets(tier, rng, stats, nrand);
         for ks in sets {
-            cases.push(build_case("extend", "all", 0, 10_000, 2, &set_ops(&ks)));
+            cases.push(build_case("extend", "all", 0, drows(), dcols(), &set_ops(&ks)));
             let p = 1 + rng.below(NPATTERNS as u64 - 1) as usize;
             let vals = value_pattern(p, ks.len(), rng);
             let ty = if rng.chance(1, 6) { rng.next() } else { 0 };
-            cases.push(build_case("extend", "all", ty, 10_000, 2, &map_ops(&with_values(&ks, &vals))));
+            cases.push(build_case("extend", "all", ty, drows(), dcols(), &map_ops(&with_values(&ks, &vals))));
         }
         // histories with rejected calls (duplicates with smaller / larger values, smaller keys) in between: the bytes
         // must equal those of the accepted sequence alone
@@ -69,7 +69,7 @@ impl Prop for P {
                     _ => {}
                 }
             }
-            cases.push(build_case("calls", "dirty", 0, 10_000, 2, &ops));
+            cases.push(build_case("calls", "dirty", 0, drows(), dcols(), &ops));
             stats.bump("histories_with_rejected_calls");
         }
         // key sets large enough that node-cache buckets overflow: front ends that silently used a different
@@ -80,16 +80,16 @@ impl Prop for P {
             if ks.is_empty() {
                 continue;
             }
-            cases.push(build_case("extend", "all", 0, 10_000, 2, &set_ops(&ks)));
+            cases.push(build_case("extend", "all", 0, drows(), dcols(), &set_ops(&ks)));
             let vals = value_pattern(6, ks.len(), rng);
-            cases.push(build_case("extend", "all", 0, 10_000, 2, &map_ops(&with_values(&ks, &vals))));
+            cases.push(build_case("extend", "all", 0, drows(), dcols(), &map_ops(&with_values(&ks, &vals))));
             stats.bump("corpus_keysets");
         }
         // many distinct nodes from generated keys (about 20 nodes per key)
         for n in [400usize, 1500] {
             let ks = sort_dedup((0..n).map(|i| format!("{:04}-{:x}-{}", i, (i as u64).wrapping_mul(0x9E3779B97F4A7C15) >> 40, "z".repeat(i % 7)).into_bytes()).collect());
             let vals = value_pattern(6, ks.len(), rng);
-            cases.push(build_case("extend", "all", 0, 10_000, 2, &map_ops(&with_values(&ks, &vals))));
+            cases.push(build_case("extend", "all", 0, drows(), dcols(), &map_ops(&with_values(&ks, &vals))));
             stats.bump("generated_many_nodes");
         }
         cases
@@ -104,10 +104,10 @@ impl Prop for P {
         let mut x = String::from("ok");
         if p[2] == "dirty" {
             // single calls incl. rejected ones, on the raw builder and on MapBuilder, vs the accepted calls only
-            let dirty_raw = exec_build("calls", "raw", ty, 10_000, 2, &ops);
-            let dirty_map = exec_build("calls", "map", ty, 10_000, 2, &ops);
+            let dirty_raw = exec_build("calls", "raw", ty, drows(), dcols(), &ops);
+            let dirty_map = exec_build("calls", "map", ty, drows(), dcols(), &ops);
             let accepted: Vec<Op> = ops.iter().zip(dirty_raw.results.iter()).filter(|(_, r)| *r == "ok").map(|(o, _)| o.clone()).collect();
-            let clean = exec_build("extend", "raw_loop", ty, 10_000, 2, &accepted);
+            let clean = exec_build("extend", "raw_loop", ty, drows(), dcols(), &accepted);
             if dirty_raw.bytes != clean.bytes {
                 x = "raw builder: bytes after rejected calls differ from the accepted sequence alone".into();
             }
@@ -123,7 +123,7 @@ impl Prop for P {
             Ok(b) => b,
             Err(e) => {
                 x = e;
-                exec_build("extend", "raw_loop", ty, 10_000, 2, &ops).bytes.unwrap()
+                exec_build("extend", "raw_loop", ty, drows(), dcols(), &ops).bytes.unwrap()
             }
         };
         // repeated builds in 8 parallel threads
@@ -134,7 +134,7 @@ impl Prop for P {
                     s.spawn(move || {
                         let fes = applicable_front_ends(ops, true, ty);
                         let (sem, fe) = fes[i % fes.len()];
-                        exec_build(sem, fe, ty, 10_000, 2, ops).bytes
+                        exec_build(sem, fe, ty, drows(), dcols(), ops).bytes
                     })
                 })
                 .collect();
@@ -156,8 +156,8 @@ impl Prop for P {
         for _ in 0..40 {
             let ks = random_keyset(rng, 40, 6);
             let vals = value_pattern(6, ks.len(), rng);
-            cases.push(build_case("extend", "all", 0, 10_000, 2, &map_ops(&with_values(&ks, &vals))));
-            cases.push(build_case("extend", "all", 0, 10_000, 2, &set_ops(&ks)));
+            cases.push(build_case("extend", "all", 0, drows(), dcols(), &map_ops(&with_values(&ks, &vals))));
+            cases.push(build_case("extend", "all", 0, drows(), dcols(), &set_ops(&ks)));
         }
         let cf = dir.join("cases.txt");
         std::fs::write(&cf, cases.join("\n") + "\n").unwrap();
